@@ -562,10 +562,19 @@ pub fn run() {
 
 /// replay of one recorded mutant (in-process, so a crash is observed as the replay's own death)
 pub fn replay_case(case: &J) -> String {
-  let xml = case.get("xml").and_then(|x| x.as_str()).unwrap_or("");
-  let r = std::panic::catch_unwind(|| load_and_invoke(xml));
-  match r {
-    Ok(c) => format!("PASS mutant handled: {}", c),
-    Err(_) => "FAIL panic while loading / invoking the mutant".to_string(),
+  let xml = case.get("xml").and_then(|x| x.as_str()).unwrap_or("").to_string();
+  // in a thread with a time limit: a hang is reported, not reproduced without end
+  let (tx, rx) = std::sync::mpsc::channel();
+  std::thread::Builder::new()
+    .stack_size(8 << 20)
+    .spawn(move || {
+      let r = std::panic::catch_unwind(|| load_and_invoke(&xml));
+      let _ = tx.send(r.ok());
+    })
+    .expect("replay thread");
+  match rx.recv_timeout(Duration::from_secs(15)) {
+    Ok(Some(c)) => format!("PASS mutant handled: {}", c),
+    Ok(None) => "FAIL panic while loading / invoking the mutant".to_string(),
+    Err(_) => "FAIL no result within 15 s while loading / invoking the mutant".to_string(),
   }
 }
